@@ -135,3 +135,18 @@ prop("C12", [("R29", integ.r29_integ), ("R28", integ.r28_dim), ("R26", buffer.r2
 from .rules import valid  # noqa: E402
 
 prop("C19", [("R38", valid.r38_valid), ("R06", life.r06_life)], "pending text")
+
+PROPS["C14"]["rules"].append(("R32", grid.r32_gridsib))
+PROPS["C15"]["rules"] += [("R33", grid.r33_mirror), ("R34", grid.r34_transdir)]
+
+from .rules import data  # noqa: E402
+
+prop("C17", [("R36", data.r36_units)], "pending text")
+prop("C18", [("R37", data.r37_masktable), ("R33", data.r33c_compress)], "pending text")
+prop("C07", [("R15", data.r15_fields), ("R16", data.r16_getinfo), ("R37", data.r37_masktable), ("R41", misc.r41_masktruth), ("R34", grid.r34_transdir)], "pending text")
+PROPS["C16"]["rules"].insert(0, ("R35", data.r35_regrid))
+PROPS["C16"]["rules"].append(("R33", data.r33c_compress))
+
+PROPS["C14"]["rules"].append(("R32b", grid.r32b_indexspace))
+
+PROPS["C08"]["rules"] += [("R36", data.r36_units), ("R34", grid.r34_transdir), ("R33", grid.r33_mirror)]
